@@ -9,9 +9,8 @@
    hosts / backends / tcp services.
    [wf_hist] = every batch follows the converters' protocol ([wf_batch]: a full sync = Clear
    then acquisitions, or a partial sync = the dirty sets removed once then acquisitions; names
-   within the universes; when the update starts the default backend is the backend of the
-   controller's default service exactly while it exists, and the backend of a host's root
-   path exists).  [shard_range] = shards are below the shard count. *)
+   within the universes; when the update starts the backend of a host's root path exists).
+   [shard_range] = shards are below the shard count. *)
 From Coq Require Import NArith List.
 From HI Require Import Model.ConfigSM Model.ConfigSM_Faults Proofs.ConfigSM Proofs.ConfigSM_Faults.
 Import ListNotations.
@@ -21,8 +20,8 @@ Open Scope N_scope.
    syncs following the protocol - histories that empty a shard, move the only changed backend
    between the add and delete sets or revert a change within one batch included -: every
    update succeeds and after it the files hold exactly the current model *)
-Theorem C05_disk_invariant : forall e dn, shard_range e ->
-  forall h l, wf_hist e dn inst_empty (nofault (h ++ [l])) ->
+Theorem C05_disk_invariant : forall e, shard_range e ->
+  forall h l, wf_hist e inst_empty (nofault (h ++ [l])) ->
     snd (step e (run e inst_empty h) l) = false /\
     disk_ok e (i_cfg (run e inst_empty (h ++ [l]))) (i_disk (run e inst_empty (h ++ [l]))).
 Proof. exact disk_invariant. Qed.
@@ -31,6 +30,6 @@ Print Assumptions C05_disk_invariant.
 (* the hypotheses are satisfiable (two shards; a full sync - w_s1 is the state it leads to -,
    then a partial sync that removes the only backend of shard 1) *)
 Theorem C05_hypotheses_satisfiable :
-  shard_range w_env /\ wf_hist w_env 7 inst_empty [(w_full2, [])] /\ wf_batch w_env 7 (i_cfg w_s1) w_part.
+  shard_range w_env /\ wf_hist w_env inst_empty [(w_full2, [])] /\ wf_batch w_env (i_cfg w_s1) w_part.
 Proof. exact (conj w_range wf_hist_example). Qed.
 Print Assumptions C05_hypotheses_satisfiable.
